@@ -170,6 +170,21 @@ package xmpp
 //@     invariant 0 <= $i && $i <= len(namespaces) && forall(k, 0, $i, namespaces[k] == lower(old(namespaces[k]))) && forall(k, $i, len(namespaces), namespaces[k] == old(namespaces[k]))
 //@     decreases len(namespaces) - $i
 //
+// "First registered route" means registration order: a new route goes to the end of the table, the others stay.
+//@ func (*xmpp.Router).NewRoute(r) (res)
+//@   requires r != nil
+//@   ensures [C06.build.route] res != nil && fresh(res) && len(res.matchers) == 0 && res.handler == nil && len(r.routes) == old(len(r.routes)) + 1 && r.routes[old(len(r.routes))] == res && forall(k, 0, old(len(r.routes)), r.routes[k] == old(r.routes[k]))
+//@   assigns r.routes
+//@   elems r.routes
+//@ func (*xmpp.Route).Handler(r, handler) (res)
+//@   requires r != nil
+//@   ensures [C06.build.handler] res == r && r.handler == handler && r.matchers == old(r.matchers)
+//@   assigns r.handler
+//@ func (*xmpp.Route).HandlerFunc(r, f) (res)
+//@   requires r != nil
+//@   ensures [C06.build.handlerfunc] res == r && typeof(r.handler) == HandlerFunc && r.matchers == old(r.matchers)
+//@   assigns r.handler
+//
 //@ pred wfRoute(r) := r != nil && forall(k, 0, len(r.matchers), r.matchers[k] != nil)
 //@ pred routeAccepts(r, p) := forall(k, 0, len(r.matchers), accepts(r.matchers[k], p))
 //
